@@ -758,6 +758,11 @@ func (ctx Ctx) callExpr(s *ast.CallExpr) coq.Expr {
 			if e.Kind == token.STRING {
 				v := ctx.info.Types[e].Value
 				msg = constant.StringVal(v)
+				if strings.ContainsAny(msg, "\"\n") {
+					// the message is printed as a Gallina string, which has
+					// no escapes
+					ctx.unsupported(e, "panic messages with quotes or newlines")
+				}
 			}
 		}
 		return coq.NewCallExpr(coq.GallinaIdent("Panic"), coq.GallinaString(msg))
